@@ -49,14 +49,17 @@ MALFORMED = [
 
 
 # ------------------------------------------------------------------------------------------
-def gen_group(rng, hist, exec_mode, max_steps):
+def gen_group(rng, hist, exec_mode, max_steps, force=None):
+    """`force` = (solver, equation class): the compiled steppers of all five solvers are exercised with a
+    state-dependent equation in every run of the check"""
     # under JIT only dyadic numbers have a bit-exact reference (see ctrl.resolve): favour them there
     numbers = rng.choice(["Q", "F"]) if exec_mode != "numba-J" else rng.choice(["Q", "Q", "Q", "F"])
     dt, t0, t1, N, delta = ctrl.gen_base(rng, numbers, hist, max_steps)
-    eq = rng.choice(["one", "time"])
-    solver = "euler" if rng.random() < 0.8 else rng.choice(ctrl.FIXED_SOLVERS[1:])
-    u0 = rng.choice([0.0, 0.0, 1.0, ctrl.dyadic(rng, 0, 16, 3)]) if numbers == "Q" else rng.choice([0.0, 0.1, 1.0, -0.3, 2.5])
-    base = {"numbers": numbers, "dt": dt, "t_start": t0, "t_end": t1, "u0": u0, "eq": eq, "solver": solver,
+    eq, a, u0 = ctrl.gen_equation(rng, numbers, dt, t0, t1, hist, state_dependent=1.0 if force else 0.5)
+    solver = "euler" if rng.random() < 0.55 else rng.choice(ctrl.FIXED_SOLVERS[1:])
+    if force:
+        solver = force
+    base = {"numbers": numbers, "dt": dt, "t_start": t0, "t_end": t1, "u0": u0, "eq": eq, "a": a, "solver": solver,
             "backend": "numpy" if exec_mode == "numpy" else "numba", "jit": exec_mode == "numba-J", "N": N, "delta": delta,
             "cells": rng.choice([1, 1, 1, 3])}
     if t0 == 0.0 and rng.random() < 0.3:
@@ -70,12 +73,12 @@ def gen_group(rng, hist, exec_mode, max_steps):
     hist("dtype", kind)
     hist("numbers", "dyadic" if numbers == "Q" else "decimal")
     hist("solver", solver)
-    hist("equation", eq)
     hist("exec", exec_mode)
+    hist("solver x equation x exec", f"{solver} / {'state-dependent' if eq in ctrl.STATE_DEPENDENT else 'counting'} / {exec_mode}")
     k = rng.choice([2, 3, 3, 4])
     cases = []
     for j in range(k):
-        trs = [] if j == 0 else ctrl.gen_trackers(rng, numbers, dt, t0, t1, hist)
+        trs = [] if j == 0 else ctrl.gen_trackers(rng, numbers, dt, t0, t1, hist, shared_objects=True)
         if j > 0 and not trs:
             trs = ctrl.gen_trackers(rng, numbers, dt, t0, t1, hist, n=1)
         cases.append(dict(copy.deepcopy(base), trackers=trs))
@@ -100,8 +103,11 @@ def run_monitors(ctx, group, reals):
 def run(ctx):
     from harness.common.lean import LeanBatch
     rng = ctx.rng
-    plan = {"numpy": ctx.budget(500, 14000), "numba-S": ctx.budget(90, 2400), "numba-J": ctx.budget(12, 320)}
-    groups = {m: [gen_group(rng, ctx.hist, m, 120 if m != "numba-J" else 40) for _ in range(n)] for m, n in plan.items()}
+    plan = {"numpy": ctx.budget(500, 14000), "numba-S": ctx.budget(90, 2400), "numba-J": ctx.budget(14, 320)}
+    groups = {m: [gen_group(rng, ctx.hist, m, 120 if m != "numba-J" else 40,
+                            force=ctrl.FIXED_SOLVERS[i % 5] if (m == "numba-J" and i < ctx.budget(5, 40)) or
+                            (m == "numba-S" and i < ctx.budget(10, 80)) else None)
+                  for i in range(n)] for m, n in plan.items()}
     results = ctrl.exec_groups(ctx, groups)
     batch, pending = LeanBatch(ctx.workdir), []
     for mode in groups:
